@@ -204,13 +204,24 @@ def playback(h, group, pid):
     lockf = open(os.path.join(BUILD, group + ".lock"), "w")
     fcntl.flock(lockf, fcntl.LOCK_EX)
     try:
-        p = subprocess.run(cmd, cwd=gdir, env=env_for_kani(), stdout=subprocess.PIPE, stderr=subprocess.STDOUT,
-                           text=True)
+        sh = "ulimit -v %d; exec timeout 2400 %s" % (24 * 1024 * 1024, " ".join("'%s'" % c for c in cmd))
+        p = subprocess.run(["bash", "-c", sh], cwd=gdir, env=env_for_kani(), stdout=subprocess.PIPE,
+                           stderr=subprocess.STDOUT, text=True)
     finally:
         fcntl.flock(lockf, fcntl.LOCK_UN)
         lockf.close()
-    m = re.search(r"```\s*\n(/// Test generated.*?)```", p.stdout, re.S) or \
-        re.search(r"(#\[test\]\s*\nfn kani_concrete_playback_.*?\n}\n)", p.stdout, re.S)
+    # Kani prints one generated test per failed check AND per satisfied cover; take the one generated for a failed
+    # assertion (a cover witness would pass natively and look like "not reproduced")
+    blocks = re.findall(r"(/// Test generated for harness.*?\n}\n)", p.stdout, re.S)
+    chosen = None
+    for b in blocks:
+        if re.search(r"Check for `(assertion|arithmetic_overflow|pointer_dereference|safety_check|division-by-zero|unreachable|bounds_check|error_label|other)`", b) \
+                and "cover condition" not in b.split("#[test]")[0]:
+            chosen = b
+            break
+    if chosen is None and blocks:
+        chosen = blocks[0]
+    m = re.match(r"(.*)", chosen, re.S) if chosen else None
     rec = {"property": pid, "harness": h.name, "group": group, "desc": h.desc,
            "how_to_replay": "copy engines/kani/%s to a scratch dir, append `test` to the harness' module file, run "
                             "`RUSTFLAGS='--cfg tracing_verif' cargo kani playback -Z concrete-playback --test <fn>` "
